@@ -343,12 +343,16 @@ type fakeTxMsg struct {
 	txFail   map[int]bool // k-th TransmitFrame fails
 }
 
-func (m *fakeTxMsg) access(what string) {
+// access: the state the method reads is read when the step is granted, not when the call arrives
+func (m *fakeTxMsg) access(what func() string) {
 	t := m.w.point("A")
-	m.w.emit(fmt.Sprintf("A.%x.%s.%s", t, what, m.w.held(t)))
-	m.lastFlag = strings.HasPrefix(what, "flag")
+	s := what()
+	m.w.emit(fmt.Sprintf("A.%x.%s.%s", t, s, m.w.held(t)))
+	m.lastFlag = strings.HasPrefix(s, "flag")
 	m.w.stepDone()
 }
+
+func konst(s string) func() string { return func() string { return s } }
 
 func (m *fakeTxMsg) Descriptor() *descriptor.Message { return m.desc }
 func (m *fakeTxMsg) TransmitEventChan() <-chan struct{} {
@@ -365,29 +369,29 @@ func (m *fakeTxMsg) WakeUpChan() <-chan struct{} {
 	return m.wakeOut
 }
 func (m *fakeTxMsg) IsCyclicTransmissionEnabled() bool {
-	b := m.flag
-	m.access("flag" + b01(b))
+	var b bool
+	m.access(func() string { b = m.flag; return "flag" + b01(b) })
 	return b
 }
 func (m *fakeTxMsg) BeforeTransmitHook() func(context.Context) error {
-	m.access("hook")
+	m.access(konst("hook"))
 	m.hookN++
 	k := m.hookN
 	return m.w.hook(m.n, func() bool { return m.hookFail[k] }, func() bool { return m.hookLock[k] }, m.tid)
 }
-func (m *fakeTxMsg) SetTransmitTime(time.Time) { m.access("time") }
+func (m *fakeTxMsg) SetTransmitTime(time.Time) { m.access(konst("time")) }
 func (m *fakeTxMsg) Frame() can.Frame {
-	v := m.content
-	m.access(fmt.Sprintf("frame%x", v))
+	var v int
+	m.access(func() string { v = m.content; return fmt.Sprintf("frame%x", v) })
 	f := can.Frame{ID: uint32(m.tid), Length: 8}
 	f.Data[0] = byte(v)
 	f.Data[1] = byte(v >> 8)
 	return f
 }
-func (m *fakeTxMsg) MarshalFrame() (can.Frame, error) { m.access("other"); return can.Frame{}, nil }
-func (m *fakeTxMsg) UnmarshalFrame(can.Frame) error   { m.access("other"); return nil }
-func (m *fakeTxMsg) Reset()                           { m.access("other") }
-func (m *fakeTxMsg) String() string                   { m.access("other"); return "" }
+func (m *fakeTxMsg) MarshalFrame() (can.Frame, error) { m.access(konst("other")); return can.Frame{}, nil }
+func (m *fakeTxMsg) UnmarshalFrame(can.Frame) error   { m.access(konst("other")); return nil }
+func (m *fakeTxMsg) Reset()                           { m.access(konst("other")) }
+func (m *fakeTxMsg) String() string                   { m.access(konst("other")); return "" }
 
 // ---------------------------------------------------------------- fake frame transmitter
 
